@@ -171,7 +171,8 @@ def build_loop_source(rng, i):
     if lo == "disabled":
         L.fields["enabled"] = Expr(Not(In("flag")))
     wait = rng.random() < 0.7
-    t = Opt(rng.choice([Ref("L", "failed", "error"), Ref("L", "failed", "error"), Ref("L", "outputs", "success", "data"), Ref("L", "disabled", "output", "message"), Ref("L", "outputs", "success")]), wait)
+    t = Opt(rng.choice([Ref("L", "failed", "error"), Ref("L", "failed", "error"), Ref("L", "outputs", "success", "data"), Ref("L", "disabled", "output", "message"), Ref("L", "outputs", "success"),
+                        Ref("L", "closed", "result"), Ref("L", "closed", "result"), Ref("L", "enabling", "resolved")]), wait)
     where = rng.choice(["top", "map", "list"])
     value = place(t, where, rng)
     consumer_kind = rng.choice(["step-input", "workflow-output", "both"])
